@@ -2905,13 +2905,13 @@ protected:
             format( valCopy);
             auto const  pos = boost::lexical_cast< size_t>( valCopy);
             if (pos >= mDestVar.size())
-               mDestVar.resize( pos * 1.5);
+               mDestVar.resize( pos + pos / 2 + 1);
             mDestVar[ pos] = !mResetFlags;
          } else
          {
             auto const  pos = boost::lexical_cast< size_t>( listVal);
             if (pos >= mDestVar.size())
-               mDestVar.resize( pos * 1.5);
+               mDestVar.resize( pos + pos / 2 + 1);
             mDestVar[ pos] = !mResetFlags;
          } // end if
       } // end for
